@@ -87,8 +87,116 @@ def one(c):
     return out
 
 
+def py_components(rows, n):
+    lab = [-1] * n
+    g = 0
+    for i in range(n):
+        if lab[i] >= 0:
+            continue
+        stack = [i]
+        lab[i] = g
+        while stack:
+            a = stack.pop()
+            for b in range(n):
+                if lab[b] < 0 and ((rows[a] >> b) & 1 or (rows[b] >> a) & 1):
+                    lab[b] = g
+                    stack.append(b)
+        g += 1
+    return lab
+
+
+def fast_adjacency(ra, dec, linklength):
+    """vectorised; used only by the uncertified screening pass"""
+    x = np.deg2rad(np.vstack((ra, dec)))
+    rad = np.deg2rad(linklength)
+    rows = []
+    for i in range(ra.size):
+        s = SG.gcirc(x[0, i], x[1, i], x[0], x[1], units=0)
+        bits = 0
+        for j in np.nonzero(s <= rad)[0]:
+            bits |= 1 << int(j)
+        rows.append(bits)
+    return rows
+
+
+def screen(c):
+    """uncertified screening of a sky case: does ingroup equal a brute-force labelling?  -> True = suspicious"""
+    ra = np.array(c['ra'], dtype='d')
+    dec = np.array(c['dec'], dtype='d')
+    kw = {}
+    if c.get('chunksize') is not None:
+        kw['chunksize'] = float(c['chunksize'])
+    try:
+        with warnings.catch_warnings():
+            warnings.simplefilter('ignore')
+            r = SG.spheregroup(ra, dec, float(c['linklength']), **kw)
+        return [int(x) for x in r[0]] != py_components(fast_adjacency(ra, dec, float(c['linklength'])), ra.size)
+    except Exception:  # noqa: BLE001
+        return True
+
+
+# ---- synthetic cell lists: the real groups / friendsoffriends / spheregroup tail driven with arbitrary link and cells
+SYN = {}
+
+
+def _syn_sep(x1, x2):
+    i = int(round(float(np.rad2deg(x1[0]))))
+    j = int(round(float(np.rad2deg(x2[0]))))
+    return 0.0 if (SYN['adj'][i] >> j) & 1 else 10.0
+
+
+class SynChunks(RecChunks):
+    def assign(self, ra, dec, marginSize):
+        cells = SYN['cells']
+        self.nDec = 1
+        self.nRa = [len(cells)]
+        self.chunkList = [[list(c) for c in cells]]
+
+
+def synthetic(c, record=True):
+    """point i sits at RA = i degrees; separation(i, j) is 0 when linked and 10 rad otherwise (stub installed in place of
+    groups.sphereradec); chunks.assign is replaced by one that installs the given cell lists.  Everything else is the real code."""
+    n = int(c['n'])
+    SYN['adj'] = [int(x) for x in c['adj']]
+    SYN['cells'] = c['cells']
+    out = {'adj': [str(x) for x in SYN['adj']], 'nearest_threshold_rel': None}
+    orig_sep = SG.groups.__dict__['sphereradec']
+    SG.groups.sphereradec = staticmethod(_syn_sep)
+    SG.chunks = SynChunks
+    REC.clear()
+    try:
+        with warnings.catch_warnings():
+            warnings.simplefilter('ignore')
+            r = SG.spheregroup(np.arange(n, dtype='d'), np.zeros(n), 1.0, chunksize=30.0)
+        out['ok'] = [[int(x) for x in a] for a in r]
+    except Exception as e:  # noqa: BLE001
+        out['err'] = type(e).__name__
+        out['msg'] = str(e)[:160]
+    finally:
+        SG.chunks = _orig_chunks
+        SG.groups.sphereradec = orig_sep
+    if record and 'cells' in REC:
+        out['rec'] = dict(REC)
+    return out
+
+
 def main():
     calls = json.load(sys.stdin)
+    if isinstance(calls, dict) and calls.get('mode') == 'screen':
+        sus = []
+        for k, c in enumerate(calls['cases']):
+            if 'cells' in c:
+                r = synthetic(c, record=False)
+                bad = 'ok' not in r or r['ok'][0] != py_components([int(x) for x in c['adj']], int(c['n']))
+            else:
+                bad = screen(c)
+            if bad:
+                sus.append(k)
+        json.dump({'pydl_file': pydl.__file__, 'suspicious': sus, 'n': len(calls['cases'])}, sys.stdout)
+        return
+    if isinstance(calls, dict) and calls.get('mode') == 'synthetic':
+        json.dump({'pydl_file': pydl.__file__, 'results': [synthetic(c) for c in calls['cases']]}, sys.stdout)
+        return
     json.dump({'pydl_file': pydl.__file__, 'numpy': np.__version__, 'results': [one(c) for c in calls]}, sys.stdout)
 
 
